@@ -466,6 +466,30 @@ def cells():
     cell("default-attribute-error-warning-as-error",
          default_attribute_error_as_error, fails=True)
 
+    def malformed_factory_arguments(o, S):
+        # factory arguments of the wrong shape: refused when the trait is
+        # defined or when the default is read, or made to work - anything
+        # but a crash
+        for kwargs in ({"args": [[1, S]]}, {"args": "ab"},
+                       {"kw": [("a", S)]}, {"args": None},
+                       {"args": (S,), "kw": 5}):
+            try:
+                class M(HasTraits):
+                    x = Any(factory=list, **kwargs)
+                M().x
+            except Exception:
+                pass
+            for dv in ((list, [S], None), (list, (S,), [1]), (list, S, {}),
+                       (list,), 5):
+                try:
+                    t = Any().as_ctrait()
+                    t.set_default_value(7, dv)
+                    t.default_value_for(o, "zz")
+                except Exception:
+                    pass
+    cell("malformed-factory-arguments", malformed_factory_arguments,
+         fails=True)
+
     def pickle_object(o, S):
         x = R(a=[1, S], i=2, li=[1, 2], di={"k": 1}, inst=A())
         y = pickle.loads(pickle.dumps(x))
